@@ -61,6 +61,13 @@ FORMS = {
     "grouped": ("use b::{Unused, PLACEN};", "PLACEN", ("import", "b", "N")),
     "grouped-first": ("use b::{PLACEN, Unused};", "PLACEN", ("import", "b", "N")),
     "nested": ("use b::{inner::{PLACEN, deeper::Unused}};", "PLACEN", ("import", "b", "N")),
+    # lower-case names (functions, modules, `self`) among the types of a group
+    "grouped-fn-middle": ("use b::{PLACEN, helper, Unused};", "PLACEN", ("import", "b", "N")),
+    "grouped-fn-last": ("use b::{PLACEN, Unused, helper};", "PLACEN", ("import", "b", "N")),
+    "grouped-fn-first": ("use b::{helper, PLACEN};", "PLACEN", ("import", "b", "N")),
+    "nested-fn-inside": ("use b::{PLACEN, util::{Unused, helper}};", "PLACEN", ("import", "b", "N")),
+    "grouped-self-last": ("use b::{PLACEN, self};", "PLACEN", ("import", "b", "N")),
+    "grouped-self-first": ("use b::{self, PLACEN};", "PLACEN", ("import", "b", "N")),
     "module-path": ("use b::inner::PLACEN;", "PLACEN", ("import", "b", "N")),
     "glob": ("use b::*;", "PLACEN", ("import", "b", "N")),
     "glob-and-name": ("use b::*;\nuse b::Unused;", "PLACEN", ("import", "b", "N")),
@@ -94,7 +101,15 @@ FORMS = {
     "same-name-both-imported": ("use b::PLACEN;", "PLACEN", ("import", "b", "N")),
     # ... and the same inside ONE file: two modules of the file import the name from b and from c
     "same-name-two-modules": ("", "PLACEN", ("import", "b", "N")),
+    # ... the same with a type both crates serde-rename differently (which new name the references get must not depend on hashing)
+    "same-name-two-modules-renamed": ("", "Ren", ("import", "b", "Other")),
+    # crate b only re-exports the name; crates c and d both define it (the re-export heuristic must pick deterministically)
+    "reexport-two-candidates": ("use b::PLACEN;", "PLACEN", ("import", "c", "N")),
 }
+A_TWO_MODULES_REN = ("pub mod x {\n    use b::Ren;\n    #[typeshare]\n    pub struct Ux { pub f: Ren }\n}\n"
+                     "pub mod y {\n    use c::Ren;\n    #[typeshare]\n    pub struct User { pub g: Ren }\n}\n")
+B_REEXPORT = "pub use c::PLACEN;\n#[typeshare]\npub struct Bee { pub z: u32 }\n"
+D_LIB = "#[typeshare]\npub struct PLACEN { pub dd: bool }\n"
 A_TWO_MODULES = ("pub mod x {\n    use b::PLACEN;\n    #[typeshare]\n    pub struct Ux { pub f: PLACEN }\n}\n"
                  "pub mod y {\n    use c::PLACEN;\n    #[typeshare]\n    pub struct User { pub g: PLACEN }\n}\n")
 A_OTHER_SAME = "#[typeshare]\npub struct Local { pub q: bool }\n#[typeshare]\npub struct PLACEN { pub own: bool }\n"
@@ -120,6 +135,8 @@ def workspace(form, pos, depth):
     a_src = (use + "\n" if use else "") + "use std::collections::HashMap;\n" + POSITIONS[pos] % spelled
     if form == "same-name-two-modules":
         a_src = A_TWO_MODULES
+    if form == "same-name-two-modules-renamed":
+        a_src = A_TWO_MODULES_REN
     files = [("a", DEPTHS[depth], a_src), ("a", "a/src/other.rs", A_OTHER_C if form == "same-name-both-imported" else A_OTHER_SAME if form.endswith("-path-same-name") or form == "crate-qualified-same-name" else A_OTHER)]
     if form == "dash-crate":
         files.append(("d_e", "d-e/src/lib.rs", B_LIB))
@@ -127,6 +144,8 @@ def workspace(form, pos, depth):
         files.append(("b", "b/src/lib.rs", B_LIB))
     if form.startswith("same-name"):
         files.append(("c", "c/src/lib.rs", C_LIB))
+    if form == "reexport-two-candidates":
+        files = [f for f in files if f[0] != "b"] + [("b", "b/src/lib.rs", B_REEXPORT), ("c", "c/src/lib.rs", C_LIB), ("d", "d/src/lib.rs", D_LIB)]
     return files, expect
 
 
@@ -495,7 +514,7 @@ def case_file_name(case):
 def run(rep, tier, only=None):
     prog()
     t0 = time.time()
-    forms = [f for f in FORMS if f not in ("same-name-both-imported", "same-name-two-modules")]   # that one imports the name from two crates on purpose (C06 hash-ws)
+    forms = [f for f in FORMS if f not in ("same-name-both-imported", "same-name-two-modules", "same-name-two-modules-renamed", "reexport-two-candidates")]   # that one imports the name from two crates on purpose (C06 hash-ws)
     poss = list(POSITIONS)
     icases = []
     for lang in ("typescript", "kotlin"):
